@@ -218,16 +218,23 @@ def r4(R, repo):
   mod, cls, meths, init, target = _cls_info(repo)
   nxt = mod.func('PrefetchIterator.__next__')
   c = cfg_of(nxt)
-  tb = [n for n in c.nodes if n.kind == 'if' and astu.src(n.ast) in ('self._buffer', 'len(self._buffer) > 0', 'len(self._buffer)')]
-  te = [n for n in c.nodes if n.kind == 'if' and astu.src(n.ast) in ('self._error', 'self._error is not None')]
+  POS_B, NEG_B = ('self._buffer', 'len(self._buffer) > 0', 'len(self._buffer)', 'len(self._buffer) != 0'), ('not self._buffer', 'len(self._buffer) == 0')
+  POS_E, NEG_E = ('self._error', 'self._error is not None'), ('not self._error', 'self._error is None')
+  tb = [n for n in c.nodes if n.kind == 'if' and astu.src(n.ast) in POS_B + NEG_B]
+  te = [n for n in c.nodes if n.kind == 'if' and astu.src(n.ast) in POS_E + NEG_E]
   R.require(len(tb) == 1 and len(te) == 1, '__next__: buffer / error tests not found')
+
+  def holds(node, t, truth, pos):
+    """node is reached only when the tested condition (in its positive reading) has the given truth value"""
+    positive = astu.src(t.ast) in pos
+    return c.edge_guarded(node, t, 'T' if truth == positive else 'F')
   raises = [n for n in c.nodes if isinstance(n.stmt, ast.Raise)]
   rerr = [n for n in raises if astu.src(n.stmt.exc) == 'self._error']
   rstop = [n for n in raises if astu.raised_name(n.stmt) == 'StopIteration']
   R.require(len(rerr) == 1 and len(rstop) == 1, '__next__: raise self._error / raise StopIteration not found')
-  R.check(c.edge_guarded(rerr[0], tb[0], 'F') and c.edge_guarded(rerr[0], te[0], 'T'), key_of(nxt, 'error only after the buffer is drained'), (nxt, rerr[0].stmt), evidence=True, msg_fail=
+  R.check(holds(rerr[0], tb[0], False, POS_B) and holds(rerr[0], te[0], True, POS_E), key_of(nxt, 'error only after the buffer is drained'), (nxt, rerr[0].stmt), evidence=True, msg_fail=
           'the source error must be raised only when no buffered item is left (items that preceded the error come first)')
-  R.check(c.edge_guarded(rstop[0], tb[0], 'F') and c.edge_guarded(rstop[0], te[0], 'F'), key_of(nxt, 'StopIteration only without items and without error'), (nxt, rstop[0].stmt), evidence=True, msg_fail=
+  R.check(holds(rstop[0], tb[0], False, POS_B) and holds(rstop[0], te[0], False, POS_E), key_of(nxt, 'StopIteration only without items and without error'), (nxt, rstop[0].stmt), evidence=True, msg_fail=
           'StopIteration must be raised only when the buffer is empty and no error was recorded')
   waits = [x for x in astu.func_calls(nxt) if astu.call_tail(x) == 'wait_for']
   ok = len(waits) == 1 and isinstance(waits[0].args[0], ast.Lambda)
@@ -329,6 +336,84 @@ def r6(R, repo):
 def w_items(w):
   return w.items
 
+
+
+@rule('C20.R7', 'K4', 2, 'scan_in_dim moves the scanned axes to the front on the way in and back to their place on the way out (inverse permutations)')
+def r7(R, repo):
+  mod = repo.mod(JU)
+  f = mod.func('scan_in_dim')
+  kinds = {}
+  for q, g in mod.funcs.items():
+    if q.startswith('scan_in_dim.') and q.count('.') == 1:
+      tr = [x for x in astu.func_calls(g) if astu.call_tail(x) == 'transpose' and x.args]
+      if len(tr) == 1:
+        inv = any(isinstance(y, ast.Call) and astu.call_name(y) == '_invert_perm' for a_ in tr[0].args for e_ in evid.expand(g, a_) if isinstance(e_, ast.AST) for y in ast.walk(e_))
+        kinds[g.name] = 'inverse' if inv else 'forward'
+  R.require(sorted(kinds.values()) == ['forward', 'inverse'], 'scan_in_dim: the forward / inverse transpose helpers were not recognised (%s)' % kinds)
+  c = cfg_of(f)
+  scan = [nd for x in astu.func_calls(f) if astu.call_name(x) == '_scan_nd' for nd in c.nodes_for(x)]
+  R.require(len(scan) == 1, 'scan_in_dim: _scan_nd call not found')
+  maps = [(nd, x) for x in astu.func_calls(f) if astu.call_tail(x) == 'tree_map' and len(x.args) == 2 and isinstance(x.args[0], ast.Name) and x.args[0].id in kinds for nd in c.nodes_for(x)
+          if astu.enclosing_func(x) is f.node]
+  before = [(nd, x) for nd, x in maps if scan[0] in c.reach([nd]) and nd not in c.reach(scan)]
+  after = [(nd, x) for nd, x in maps if nd in c.reach(scan)]
+  for label, group, want in (('inputs moved to the front before the scan', before, 'forward'), ('outputs moved back after the scan', after, 'inverse')):
+    key = key_of(f, label)
+    if len(group) != 1:
+      R.unsure(key, f, 'transposition of the %s not recognised' % ('inputs' if want == 'forward' else 'outputs'))
+      continue
+    nd, x = group[0]
+    R.check(kinds[x.args[0].id] == want, key, (f, x), evidence=True, msg_fail='`%s` applies the %s permutation where the %s one is needed: for axis choices whose permutation is not its own inverse (e.g. axis=2 of a 3-D array) the result comes back with rotated axes' % (
+        astu.short(x), kinds[x.args[0].id], want))
+
+
+@rule('C20.R8', 'K8', 1, 'onehot: hot entries equal on_value and all others off_value')
+def r8(R, repo):
+  from .. import ratpoly
+  f = repo.func('flax/training/common_utils.py', 'onehot')
+  key = key_of(f, 'on_value where the index matches, off_value elsewhere')
+  ps = astu.params(f.node)
+  R.require(len(ps) >= 4, 'onehot: signature changed')
+  on, off = ps[2], ps[3]
+  sel = [x for x in astu.func_calls(f) if astu.call_tail(x) in ('select', 'where') and len(x.args) == 3]
+  if sel:
+    a, b = sel[0].args[1], sel[0].args[2]
+    ta, tb = ' '.join(astu.src(e) for e in evid.expand(f, a) if isinstance(e, ast.AST)), ' '.join(astu.src(e) for e in evid.expand(f, b) if isinstance(e, ast.AST))
+    R.judge((on in ta or off in ta) and (on in tb or off in tb), on in ta and off not in ta and off in tb and on not in tb, key, (f, sel[0]), '`%s` must select on_value where the comparison holds and off_value elsewhere' % astu.short(sel[0]))
+    return
+
+  def run(hot):
+    def atom_of(e):
+      if isinstance(e, ast.Name) and e.id in (on, off):
+        return e.id
+      if isinstance(e, ast.Call) and (astu.call_tail(e) in ('one_hot',) or astu.call_tail(e) == 'astype'):
+        return None
+      return None
+    ex = ratpoly.SymExec(atom_of, lambda e: None)
+    orig = ex.ev
+
+    def ev(e):
+      if isinstance(e, ast.Call) and astu.call_tail(e) == 'one_hot':
+        return ratpoly.Rat.const(hot)
+      if isinstance(e, ast.Compare):
+        return ratpoly.Rat.const(hot)
+      if isinstance(e, ast.Call) and astu.call_tail(e) == 'astype' and isinstance(e.func, ast.Attribute):
+        return ev(e.func.value)
+      return orig(e)
+    ex.ev = ev
+    body = astu.strip_docstring(f.node.body)
+    ex.run([st for st in body if not isinstance(st, ast.Return)])
+    ret = [st for st in body if isinstance(st, ast.Return)]
+    if len(ret) != 1:
+      raise ratpoly.Unsupported('returns')
+    return ex.ev(ret[0].value)
+  try:
+    v1, v0 = run(1), run(0)
+  except ratpoly.Unsupported as e:
+    R.unsure(key, f, 'onehot is neither a select(...) nor straight-line arithmetic over the indicator (%s)' % e)
+    return
+  ok = v1 == ratpoly.Rat.atom(on) and v0 == ratpoly.Rat.atom(off)
+  R.check(ok, key, f, evidence=True, msg_fail='with the indicator equal to 1 the result is %s and with 0 it is %s: it must be %s and %s' % (v1.show(), v0.show(), on, off))
 
 meta('C20',
      explanation='PrefetchIterator: lock-set analysis (every access to the fields shared with the prefetch thread is lexically under `with self._cond`, '
